@@ -33,7 +33,7 @@ RULE = ('one workload = one reference-encoded form (0-5 parts, boundary 1-70 cha
         'or RFC 5987, contents biased to CR/LF/dashes/delimiter prefixes and look-alikes, optional '
         'preamble/epilogue/final CRLF) x per-part consumption plan (skip, partial/looped/full stream '
         'reads, get_data, get_text, get_media, read_until, iteration/pipe, exhaust, abandon after part j) '
-        'x one limit at threshold-1/threshold/threshold+1 x reader chunk sizes (sync and async) from the '
+        'x one limit at threshold-1 .. threshold+3 x reader chunk sizes (sync and async) from the '
         'delimiter length up x transport chunking down to 1 byte, run through falcon.App and '
         'falcon.asgi.App on the same bytes; its fault sweep = one extra evaluation per truncation point '
         '(every ASGI event edge, mirrored as early EOF on wsgi.input) or per sampled single-byte '
